@@ -43,6 +43,7 @@ type c09Env struct {
 	locs    []base.LogFieldLocator
 	spare   base.LogFieldLocator
 	parsers map[string]*c09Parser
+	created int
 }
 
 var c09env *c09Env
@@ -68,18 +69,27 @@ func (e *c09Env) parserFor(mapping []string) (*c09Parser, error) {
 	if p, ok := e.parsers[key]; ok {
 		return p, nil
 	}
-	mf := promreg.NewMetricFactory(fmt.Sprintf("c09p%d_", len(e.parsers)), nil, nil)
-	counter := base.NewLogInputCounter(mf)
-	parser, err := syslogparser.NewParser(logger.Root(), e.alloc, e.schema, mapping, counter)
+	p, err := e.newParser(mapping)
 	if err != nil {
 		return nil, err
 	}
 	if len(e.parsers) > 2000 { // bound the memory of very long runs
 		e.parsers = map[string]*c09Parser{}
 	}
-	p := &c09Parser{parser: parser, counter: counter, mf: mf}
 	e.parsers[key] = p
 	return p, nil
+}
+
+// newParser creates a parser instance with its own counter set and metric factory
+func (e *c09Env) newParser(mapping []string) (*c09Parser, error) {
+	e.created++
+	mf := promreg.NewMetricFactory(fmt.Sprintf("c09p%d_", e.created), nil, nil)
+	counter := base.NewLogInputCounter(mf)
+	parser, err := syslogparser.NewParser(logger.Root(), e.alloc, e.schema, mapping, counter)
+	if err != nil {
+		return nil, err
+	}
+	return &c09Parser{parser: parser, counter: counter, mf: mf}, nil
 }
 
 // counters after UpdateMetrics: passed, passedBytes, dropped, droppedBytes, overflow, overflowBytes
@@ -158,46 +168,77 @@ func c09Input(c *Case) (input []byte, mapping []string, compact bool) {
 		}
 		return input, mapping, false
 	}
+	input = c09Big(c)
+	return input, nil, true
+}
+
+// head ++ unit^reps ++ tail of the compact kinds
+func c09Big(c *Case) []byte {
 	reps := int(c.Z[3])
-	input = make([]byte, 0, len(c.S[0])+len(c.S[1])*reps+len(c.S[2]))
+	input := make([]byte, 0, len(c.S[0])+len(c.S[1])*reps+len(c.S[2]))
 	input = append(input, c.S[0]...)
 	for i := 0; i < reps; i++ {
 		input = append(input, c.S[1]...)
 	}
-	input = append(input, c.S[2]...)
-	return input, nil, true
+	return append(input, c.S[2]...)
 }
 
 func c09Run(c *Case) (out string, fails []Fail) {
 	env := c09Setup()
-	input, mapping, compact := c09Input(c)
 	maxMsg, maxRec, minPool := int(c.Z[0]), int(c.Z[1]), int(c.Z[2])
 	defs.InputLogMaxMessageBytes = maxMsg
 	defs.InputLogMaxRecordBytes = maxRec
 	defs.InputLogMinRecordBytesToPool = minPool
-	fail := func(sig, format string, args ...interface{}) {
-		fails = append(fails, Fail{sig, fmt.Sprintf(format, args...) + fmt.Sprintf(" [maxMsg=%d maxRec=%d minPool=%d input=%s]", maxMsg, maxRec, minPool, c09Short(input))})
+	if c.Kind == 2 {
+		// a sequence of messages through ONE new parser instance; counters (cumulative) after every message
+		p, err := env.newParser(nil)
+		if err != nil {
+			return "cfgerr", []Fail{{"c09:newparser", "NewParser rejects the default level mapping: " + err.Error()}}
+		}
+		base := p.read()
+		prev := base
+		var outs []string
+		table := append([][]byte{c09Big(c)}, c.S[3:]...)
+		idx := c.Z[4:]
+		for i, k := range idx {
+			o, f := c09One(env, p, base, &prev, table[k], c09Severities, true, fmt.Sprintf("message %d of the sequence %v through one parser (message table in the case), ", i+1, idx))
+			outs = append(outs, o)
+			fails = append(fails, f...)
+		}
+		return "seq:" + strings.Join(outs, "/"), fails
 	}
-
+	input, mapping, compact := c09Input(c)
 	p, err := env.parserFor(mapping)
 	if err != nil {
 		if len(mapping) == 0 || len(mapping) == 8 {
-			fail("c09:newparser", "NewParser rejects a level mapping of %d names: %v", len(mapping), err)
+			fails = append(fails, Fail{"c09:newparser", fmt.Sprintf("NewParser rejects a level mapping of %d names: %v", len(mapping), err)})
 		}
 		return "cfgerr", fails
 	}
 	if len(mapping) != 0 && len(mapping) != 8 {
-		fail("c09:newparser", "NewParser accepts a level mapping of %d names", len(mapping))
+		fails = append(fails, Fail{"c09:newparser", fmt.Sprintf("NewParser accepts a level mapping of %d names", len(mapping))})
 	}
 	levels := c09Severities
 	if len(mapping) == 8 {
 		levels = mapping
 	}
+	before := p.read()
+	prev := before
+	o, f := c09One(env, p, before, &prev, input, levels, compact, "")
+	return o, append(fails, f...)
+}
+
+// c09One parses one message with parser p. base0: counter reading the printed counters are relative
+// to; prev: reading before this message (updated). Returns the canonical output and the oracle's verdicts.
+func c09One(env *c09Env, p *c09Parser, base0 [6]uint64, prev *[6]uint64, input []byte, levels []string, compact bool, where string) (out string, fails []Fail) {
+	maxMsg, maxRec, minPool := defs.InputLogMaxMessageBytes, defs.InputLogMaxRecordBytes, defs.InputLogMinRecordBytesToPool
+	fail := func(sig, format string, args ...interface{}) {
+		fails = append(fails, Fail{sig, where + fmt.Sprintf(format, args...) + fmt.Sprintf(" [maxMsg=%d maxRec=%d minPool=%d input=%s]", maxMsg, maxRec, minPool, c09Short(input))})
+	}
 
 	// ---- run the implementation ----
 	given := append([]byte{}, input...)
 	stamp := time.Unix(1500000000, 12345)
-	before := p.read()
 	var record *base.LogRecord
 	panicMsg := ""
 	func() {
@@ -209,11 +250,13 @@ func c09Run(c *Case) (out string, fails []Fail) {
 		record = p.parser.Parse(given, stamp)
 	}()
 	after := p.read()
-	var d [6]uint64
+	var d, cum [6]uint64
 	for i := range d {
-		d[i] = after[i] - before[i]
+		d[i] = after[i] - prev[i]
+		cum[i] = after[i] - base0[i]
 	}
-	counters := fmt.Sprintf("%d,%d,%d,%d,%d,%d", d[0], d[1], d[2], d[3], d[4], d[5])
+	*prev = after
+	counters := fmt.Sprintf("%d,%d,%d,%d,%d,%d", cum[0], cum[1], cum[2], cum[3], cum[4], cum[5])
 
 	var got [][]byte // the nine fields, copied before the record is recycled
 	unescaped := false
